@@ -46,6 +46,16 @@ def run(ctx):
             n_fn += 1
             _purity(ctx, fn, F)
             _determinism(ctx, fn, F)
+    # functions the dumpers reach in zoneinfo (zone-name selection): same purity/determinism obligations,
+    # module-level state included (a cache keyed by offset makes a dump depend on what was dumped before)
+    zmod = m.mod('zoneinfo')
+    module_level = set(zmod.bindings)
+    for fn in [n for n in ast.walk(zmod.tree) if isinstance(n, ast.FunctionDef)]:
+        if fn.name in ('timezone_name', 'timezone', 'get_tz_map', 'get_tz_rmap'):
+            n_fn += 1
+            _purity(ctx, fn, 'hszinc/zoneinfo.py', module_level)
+            _determinism(ctx, fn, 'hszinc/zoneinfo.py')
+            _no_module_state(ctx, fn, 'hszinc/zoneinfo.py', module_level)
     ctx.count('dumper functions analysed', n_fn)
     ctx.floor('dumper functions analysed', n_fn, 40)
     _zone_maps(ctx, m)
@@ -109,7 +119,33 @@ def _fresh_names(fn):
     return fresh - stale
 
 
-def _purity(ctx, fn, F):
+def _no_module_state(ctx, fn, F, module_level):
+    """reads of mutable module-level containers other than the write-once zone maps"""
+    m = ctx.model
+    mod = m.mod('zoneinfo')
+    locals_ = {n.id for n in ast.walk(fn) if isinstance(n, ast.Name) and isinstance(n.ctx, ast.Store)} | {a.arg for a in fn.args.args}
+    for n in walk_no_nested(fn):
+        if isinstance(n, ast.Name) and isinstance(n.ctx, ast.Load) and n.id in module_level and n.id not in locals_:
+            defs = mod.bindings.get(n.id, [])
+            for d in defs:
+                if isinstance(d, ast.Assign) and isinstance(d.value, (ast.Dict, ast.List, ast.Set)) and not (
+                        getattr(d.value, 'keys', None) or getattr(d.value, 'elts', None)):
+                    # an initially empty module-level container read by the zone selection: a cache / memo
+                    writers = [w for w in ast.walk(mod.tree) if isinstance(w, (ast.Assign, ast.Call))
+                               and n.id in norm(w) and w is not d]
+                    ctx.violation('C07.D2', '%s::%s' % (F, fn.name), norm(d),
+                                  'dump(parse(doc)) depends on what was dumped earlier in the process: %s reads the '
+                                  'module-level container %s, which starts empty and is filled as a side effect '
+                                  '(e.g. a zone remembered per UTC offset: a January -07:00 stamp resolves to a DST zone, a '
+                                  'later July -07:00 stamp is then written with that zone and re-parses one hour off)'
+                                  % (fn.name, n.id),
+                                  '%s consults mutable module-level state (%s) that is not a write-once lazy built from '
+                                  'constant data' % (fn.name, n.id), file=F, line=n.lineno, engine='E7')
+                    return
+    ctx.ob('C07.D2', '%s consults no mutable module-level container' % fn.name, True, '%s:%d' % (F, fn.lineno))
+
+
+def _purity(ctx, fn, F, module_level=()):
     params = {a.arg for a in fn.args.args}
     fresh = _fresh_names(fn)
     bad = []
@@ -137,7 +173,13 @@ def _purity(ctx, fn, F):
         if isinstance(base, ast.Name) and base.id not in params and base.id in fresh:
             continue
         bad.append((n, what, norm(tgt)))
-    if bad:
+    if bad and module_level and bad[0][2].split('[')[0].split('.')[0] in module_level:
+        n, what, t = bad[0]
+        ctx.violation('C07.D1', '%s::%s' % (F, fn.name), norm(n),
+                      'dumping leaves a trace in module state (%s on %s): the next dump in the same process can differ'
+                      % (what, t), '%s performs %s on the module-level object `%s`' % (fn.name, what, t), file=F,
+                      line=n.lineno, engine='E7')
+    elif bad:
         n, what, t = bad[0]
         ctx.violation('C07.D1', '%s::%s' % (F, fn.name), norm(n),
                       'dump(grid) changes the grid it was given (%s on %s): a second dump differs, or the caller\'s object '
